@@ -130,12 +130,13 @@ func resolveHostIPs(ctx context.Context, host string, needIPs bool, r resolver) 
 func matchEgressRules(host string, ips []net.IP, rules []EgressRule) bool {
 	for _, r := range rules {
 		if r.IsCIDR {
+			cidr := unmapPrefix(r.CIDR)
 			for _, ip := range ips {
 				addr, ok := netipFromIP(ip)
 				if !ok {
 					continue
 				}
-				if r.CIDR.Contains(addr) {
+				if cidr.Contains(addr) {
 					return true
 				}
 			}
@@ -146,6 +147,18 @@ func matchEgressRules(host string, ips []net.IP, rules []EgressRule) bool {
 		}
 	}
 	return false
+}
+
+// unmapPrefix rewrites a rule written in IPv4-mapped notation
+// (::ffff:a.b.c.d/96+n) to the IPv4 prefix a.b.c.d/n. Addresses are compared
+// in unmapped form (see netipFromIP), and netip.Prefix.Contains never matches
+// an IPv4 address against an IPv6 prefix, so without this such a rule would
+// silently match nothing.
+func unmapPrefix(p netip.Prefix) netip.Prefix {
+	if a := p.Addr(); a.Is4In6() && p.Bits() >= 96 {
+		return netip.PrefixFrom(a.Unmap(), p.Bits()-96)
+	}
+	return p
 }
 
 func netipFromIP(ip net.IP) (netip.Addr, bool) {
